@@ -2000,7 +2000,7 @@ fn is_port_range(port: &str) -> bool {
         match cur {
             Some(c) if c.is_ascii_digit() => digits += 1,
             // start of next part
-            Some('-' | '/') => break,
+            Some('-' | '/') if digits > 0 => break,
             // illegal character
             Some(_) => return false,
             // string has ended, just make sure we've seen at least one digit
@@ -2016,7 +2016,7 @@ fn is_port_range(port: &str) -> bool {
             match cur {
                 Some(c) if c.is_ascii_digit() => digits += 1,
                 // start of next part
-                Some('/') => break,
+                Some('/') if digits > 0 => break,
                 // illegal character
                 Some(_) => return false,
                 // string has ended, just make sure we've seen at least one digit
